@@ -111,7 +111,10 @@ def run(tier):
         conc = concretise.Concretiser(seed * 991 + j, no_multiline=True, avoid_quote='"')
         nl = "\n" if j % 4 else "\r\n"
         text, texts = comments.render(conc, hist, root, cms, salt=seed + j, nl=nl)
-        dumps = impl.dumper(newlinechar=nl)
+        # formatting options other than the default (comments must survive them; END comments are not source
+        # comments, so end_comment stays off)
+        variants = [{}, {"align_values": True}, {"align_values": True, "indent": 2, "separate_complex_types": True}, {"indent": 1, "spacer": "\t"}]
+        dumps = impl.dumper(newlinechar=nl, **variants[j % 4])
         ck.count()
         try:
             rec, out_c = make_record("gen:%d" % j, text, texts, lambda view: observe_claims(cms, hist, root, view, texts),
